@@ -4,6 +4,7 @@ import (
 	"fmt"
 	"go/constant"
 	"go/types"
+	"sort"
 	"strings"
 
 	"golang.org/x/tools/go/ssa"
@@ -14,7 +15,7 @@ func init() {
 		ID:          "C20",
 		Run:         runC20,
 		MinObl:      40,
-		Explanation: "Decided: R1 in every exported (*Fosite).Write* function (unexported helpers traversed) every emission on the ResponseWriter (Write, WriteHeader, http.Error, encoders/templates/redirect helpers/response-mode handlers receiving the writer) is preceded on all paths by Header().Set(\"Cache-Control\",\"no-store\") and Set(\"Pragma\",\"no-cache\") on the same writer with no later header write that could override them (non-constant key, or the same key with another value); R2 in the methods of RFC6749Error every use of DebugField as a returned value or call/store argument is control-dependent on exposeDebug==true (Debug() accessor exempt), WithExposeDebug never receives a constant true in the module and the Write* functions never call Debug(); R3 the form-post templates (package default and configured) are *html/template.Template; R4 storage taint — for every storage persistence/lookup call in every handler and endpoint function string arguments never contain a raw credential (form values code/refresh_token/device_code/token/access_token/client_secret/password/code_verifier/client_assertion, the code/token results of Generate*/GetCode/GetAccessToken, the raw token parameter of IntrospectToken/RevokeToken) outside a *Signature call, and persisted Requesters are Sanitize(·,W) with a constant W disjoint from the endpoint's secret keys, the operator's whitelist, or have the secret keys deleted from their form on all paths before the call (Authenticate(username,password) exempt by name). NOT decided: well-formedness of emitted bytes, i18n catalog content, escaping inside html/template.",
+		Explanation: "Decided: R1 in every exported (*Fosite).Write* function (unexported helpers traversed) every emission on the ResponseWriter (Write, WriteHeader, http.Error, encoders/templates/redirect helpers/response-mode handlers receiving the writer) is preceded on all paths by Header().Set(\"Cache-Control\",\"no-store\") and Set(\"Pragma\",\"no-cache\") on the same writer with no later header write that could override them (non-constant key, or the same key with another value); R2 in the methods of RFC6749Error every use of DebugField as a returned value or call/store argument is control-dependent on exposeDebug==true (Debug() accessor exempt), WithExposeDebug never receives a constant true in the module and the Write* functions never call Debug(); R3 the form-post templates (package default and configured) are *html/template.Template; R4 storage taint — for every storage persistence/lookup call in every handler and endpoint function string arguments never contain a raw credential (form values code/refresh_token/device_code/token/access_token/client_secret/password/code_verifier/client_assertion, the code/token results of Generate*/GetCode/GetAccessToken, the raw token parameter of IntrospectToken/RevokeToken) outside a *Signature call, and persisted Requesters are Sanitize(·,W) with a constant W disjoint from the endpoint's secret keys, the operator's whitelist, or have the secret keys deleted from their form on all paths before the call (Authenticate(username,password) exempt by name). R3 also: no function of the module converts a value to one of html/template's trusted content types (HTML, URL, JS, ...); R5 every implementation of Requester.Sanitize copies a form key into the sanitized request only if the key is in the set built from its whitelist argument and the fixed default keys; R6 the 21 error values the RFCs define carry exactly the RFC error code; R7 GetDescription returns the quote-replaced complete text (nothing appended after the replacement). NOT decided: well-formedness of emitted bytes beyond that, i18n catalog content, escaping inside html/template.",
 	})
 }
 
@@ -23,6 +24,9 @@ func runC20(c *Ctx) {
 	c20R2(c)
 	c20R3(c)
 	c20R4(c)
+	c20Sanitize(c)
+	c20Codes(c)
+	c20Description(c)
 }
 
 // ------------------------------------------------------------------ R1
@@ -320,6 +324,34 @@ func c20R3(c *Ctx) {
 		}
 	}
 	c.Check(okT, rule, role, fn, "writer-takes-html-template", "WriteAuthorizeFormPostResponse renders through an *html/template.Template parameter", "no *html/template.Template parameter", nil)
+	// auto-escaping is switched off per value by html/template's trusted content types; nothing in
+	// the module may produce one (a redirect URI typed template.URL is emitted verbatim into action="...")
+	trusted := map[string]bool{"HTML": true, "HTMLAttr": true, "JS": true, "JSStr": true, "CSS": true, "URL": true, "Srcset": true}
+	var sites []string
+	for _, f := range c.P.AllFuncs {
+		for _, b := range f.Blocks {
+			for _, ins := range b.Instrs {
+				v, isV := ins.(ssa.Value)
+				if !isV {
+					continue
+				}
+				switch ins.(type) {
+				case *ssa.ChangeType, *ssa.Convert, *ssa.MakeInterface:
+				default:
+					continue
+				}
+				t := v.Type()
+				if mi, ok := ins.(*ssa.MakeInterface); ok {
+					t = mi.X.Type()
+				}
+				if n, ok := t.(*types.Named); ok && n.Obj().Pkg() != nil && n.Obj().Pkg().Path() == "html/template" && trusted[n.Obj().Name()] {
+					sites = append(sites, c.P.Pos(ins.Pos())+" ("+fnShort(f)+": template."+n.Obj().Name()+")")
+				}
+			}
+		}
+	}
+	sort.Strings(sites)
+	c.Check(len(sites) == 0, rule, role, nil, "no-trusted-content-types", "no function of the module converts a value to one of html/template's trusted content types (HTML, URL, JS, ...)", "trusted content type produced at "+strings.Join(sites, ", "), nil)
 }
 
 // ------------------------------------------------------------------ R4
